@@ -14,9 +14,12 @@ CONSTANTS
   MaxKick = 0
   Serial = TRUE
   CopyBusy = FALSE
+  CopyWoken = FALSE
+  Founders = {1, 2, 3, 4, 5}
   FixCloseRace = FALSE
   FixGetValue = FALSE
   FixBlocking = FALSE
   FixCopyParked = FALSE
+  FixCopyOfWoken = FALSE
 INVARIANTS NoDuplicate
 CHECK_DEADLOCK FALSE
